@@ -663,6 +663,13 @@ def oracle(case, io):
                     return 'to_python of a saved ground answer changed after a later query'
     return None
 
+def _apart(t, k):
+    if t[0] == 'v':
+        return ['v', (k + 1) * 1000000 + t[1]]
+    if t[0] == 'f':
+        return ['f', t[1], [_apart(a, k) for a in t[2]]]
+    return t
+
 def _zap_json(t):
     if t[0] == 'v':
         return ['a', 'zz']
@@ -691,7 +698,9 @@ def compare(case, io, mo):
             if p['py_ok'] != 1:
                 return 'model inconsistency: to_python vs py_of'
     if mode == 'findall':
-        exp_items = [terms.obs_term(alt[0]['gv'][1]) for alt in ma]
+        # findall/3 collects COPIES (engine since the repair D27; Sem/Machine.collect with lo = 0): the variables of
+        # different instances are different variables
+        exp_items = [_apart(terms.obs_term(alt[0]['gv'][1]), k) for k, alt in enumerate(ma)]
         exp = terms.mklist(exp_items)
         if len(io['answers']) != 1:
             return 'p(L) has %d answers' % len(io['answers'])
